@@ -13,7 +13,7 @@ ap.add_argument("--budget", default="30")
 ap.add_argument("--tier", default="quick")
 ap.add_argument("--extra", default="")
 a = ap.parse_args()
-ids = a.ids or sorted(os.listdir(os.path.join(V, "seeded")))
+ids = a.ids or sorted(s for s in os.listdir(os.path.join(V, "seeded")) if not s.startswith("_"))
 for sid in ids:
     d = os.path.join(V, "seeded", sid)
     meta = json.load(open(os.path.join(d, "meta.json")))
